@@ -540,7 +540,9 @@ def gen_mean_width(rng, i):
     ny = int(rng.integers(1, 6))
     Y = X[rng.integers(len(X), size=ny)] + rng.normal(0, 0.7, (ny, d)) * ext
     return {"d": d, "cls": cls, "X": X, "Y": Y, "G": G,
-            "n": int([50, 1000, 1000, 3000][int(rng.integers(4))]),
+            # number of random directions: the default, small, large, and values that are not a multiple of any
+            # plausible internal block size
+            "n": int([50, 1000, 1000, 3000, 800, 1237, 2300, 517][int(rng.integers(8))]),
             "seed": int(rng.integers(0, 2 ** 32)) if rng.integers(4) else int(rng.integers(0, 3)),
             "center": bool(rng.integers(2)), "vectorized": bool(rng.integers(2)),
             "t": rng.normal(0, 1, d) * ext * float(rng.choice([0.3, 3.0, 30.0])),
